@@ -26,14 +26,14 @@ Print Assumptions C03_lock_held_throughout.
 (* during one event the queue only grows at the back (FIFO: the drain loop pops at the front) and the
    stored state changes only by the single assignment of the fired transition *)
 Theorem C03_queue_only_grows_while_skipping :
-  forall beh nested rm, (forall td c, Rres grows c (nested td c)) ->
+  forall beh nested rm, (forall td c, Rres grows c (nested td c)) -> no_writes beh ->
   forall e td cands c c1, Skipped beh nested rm e td cands c c1 ->
     field c1 = field c /\ locked c1 = locked c /\ exists q, queue c1 = queue c ++ q.
 Proof. exact skipped_grows. Qed.
 Print Assumptions C03_queue_only_grows_while_skipping.
 
 Theorem C03_queue_only_grows_in_activate :
-  forall beh nested rm, (forall td c, Rres grows c (nested td c)) ->
+  forall beh nested rm, (forall td c, Rres grows c (nested td c)) -> no_writes beh ->
   forall t td c, act_effect t c (activate beh nested rm t td c).
 Proof. exact activate_effect. Qed.
 Print Assumptions C03_queue_only_grows_in_activate.
